@@ -244,6 +244,13 @@ def contagion_case(ctx, rng, idx):
     for n in labels:
         if rng.random() < 0.4:
             h.add_node(n)
+    if rng.random() < 0.3:
+        # the population reached through other legal calls (a copy that was extended, metadata handed to members, ...):
+        # the dynamics depends on who is linked to whom now, not on how the object got there
+        from ..mutate import second_order
+
+        lab, h = second_order(rng, h)
+        ctx.event("contagion-on-" + lab)
     nodes = list(h.get_nodes())
     edges = [frozenset(e) for e in h.get_edges()]
     pairs_nb = {n: set().union(*[e for e in edges if len(e) == 2 and n in e] or [set()]) - {n} for n in nodes}
